@@ -101,7 +101,9 @@ def run(tier: str) -> int:
         NAME_MAPS = [{"x": "data", "y": "data2.bin", "o": "root_backup"},
                      {"x": "a", "y": "a.b", "o": "root.bak"}, {"x": "a b", "y": "a", "o": "root copy"},
                      {"x": ".hidden", "y": "ä ✓", "o": "root_"}, {"x": "A", "y": "a", "o": "rootX"},
-                     {"x": "10", "y": "9", "o": "root2"}]
+                     {"x": "10", "y": "9", "o": "root2"},
+                     # a backslash is an ordinary name character (never a separator)
+                     {"x": "run\\1", "y": "run", "o": "root\\x"}, {"x": "a", "y": "a\\a", "o": "root\\"}]
         variants = [0, 3, len(SIZES) - 1] if quick else list(range(len(SIZES)))
         results = []
         nrej = nacc = nskip = 0
